@@ -168,3 +168,23 @@ Theorem C19_fuel_never_exhausted :
   (forall fuel bs, (length bs < fuel)%nat -> container_to_serde_w fuel bs <> Err EFuel).
 Proof. split; [exact to_serde_json_w_not_fuel|]. split; [exact to_serde_json_object_w_not_fuel|exact container_to_serde_fuel]. Qed.
 Print Assumptions C19_fuel_never_exhausted.
+
+(* M6 (second review): the fuel the model passes is never what decides an answer, on ARBITRARY inputs -- also for the loops
+   whose exhaustion is an ordinary value (None, Ok None, Ok buf, PErr, the input itself), about which `<> Err EFuel` says
+   nothing: any fuel above the one the model passes gives the same answer (FuelIndep.v) *)
+From JB Require FuelIndep.
+Theorem C19_fuel_is_never_decisive :
+  (forall k bs, (length bs < k)%nat -> SerdeWalk.container_to_serde_w k bs = SerdeWalk.container_to_serde_w (S (length bs)) bs) /\
+  (forall k bs, (length bs < k)%nat -> JsonText.parse_json_value k bs = JsonText.parse_json_value (S (length bs)) bs) /\
+  (forall St R bs (step : St -> Codec.je -> list N -> res (St + R)) fin k idx len joff voff s, (length bs < k)%nat -> Iter.arr_fold bs step fin k idx len joff voff s = Iter.arr_fold bs step fin (S (length bs)) idx len joff voff s) /\
+  (forall k bs i len j, (length bs < k)%nat -> Walk.rd_words k bs i len j = Walk.rd_words (S (length bs)) bs i len j).
+Proof. split; [exact FuelIndep.container_to_serde_any_fuel|split; [exact FuelIndep.parse_json_value_any_fuel|split; [exact (@FuelIndep.arr_fold_any_fuel)|exact FuelIndep.rd_words_any_fuel]]]. Qed.
+Print Assumptions C19_fuel_is_never_decisive.
+
+(* L5 (second review): the number classification of sj_of_value by VALUE, independent of the conversion's code: an integer
+   (in either integer variant) is PosInt of itself when non-negative and NegInt of itself when negative, a float is itself;
+   sj_num_of is the only function with that property *)
+Theorem C19_number_classification_by_value :
+  (forall n, same_number n (sj_num_of n)) /\ (forall n s, same_number n s -> s = sj_num_of n).
+Proof. split; [exact sj_num_of_same_number|exact same_number_unique]. Qed.
+Print Assumptions C19_number_classification_by_value.
